@@ -318,7 +318,10 @@ def _corners(rc: RuleCtx):
     res = rc.res
     # an exit that hands back the knees unfiltered is right for at most one knee only (both functions look at every knee)
     for q_ in ("filter_corner_knees", "select_corner_knees"):
-        check_short_input(rc, "W3", rc.func(f"postprocessing.{q_}"), extra_args=lambda e: {"t": e.symbol("t")}, label=f"[{q_}]")
+        try:
+            check_short_input(rc, "W3", rc.func(f"postprocessing.{q_}"), extra_args=lambda e: {"t": e.symbol("t")}, label=f"[{q_}]")
+        except AnalysisError:
+            pass            # (the function is not read as a whole: an exit in front of its loop, if any, is then left to the early-exit audit)
     a = corner_guard(rc, "filter_corner_knees")
     b = corner_guard(rc, "select_corner_knees")
     if a is None or b is None:
